@@ -1,9 +1,17 @@
-// C10/C11 harness: FastGaussianNoise<in_class, int32_t, depth> driven through a scripted nfl::fastrandombytes.
+// C10/C11 harness: FastGaussianNoise<in_class, out_class, depth> driven through a scripted nfl::fastrandombytes.
+// The same source is compiled four times (-DGAUSS_OSET=0/1/2/3, in parallel): set 0 = out_class int32_t (all streams, TV search,
+// lifecycles), set 1 = int64_t / uint64_t, set 2 = uint32_t, set 3 = int16_t / uint16_t (out-type sweeps of the c10 / c11 streams and the
+// library's own consumer poly<T,…>::set(gaussian<in_class,T,depth>) for T = uint64_t / uint32_t / uint16_t).
 //
 // Lines (see lean/Driver/GaussH.lean):
-//   gtab  id W depth wp nb rc <nb*wp barrier words> <n1 items…> <nrows (row nitems items…)…> => 1
+//   gtab  id W depth wp nb rc ob osg <nb*wp barrier words> <n1 items…> <nrows (row nitems items…)…> => 1
+//         ob / osg = width in bits and signedness of out_class; the cell values are printed as the integer they denote when the
+//         out_class object is read as the signed type of the same width (what core.hpp does with value_type samples)
 //         item = 0 cnt val (run of unflagged cells with empty list) | 1 val k idx… (flagged) | 2 val k idx… (unflagged, non-empty list)
-//   gdec  id kind u_0 … u_{wp-1} => out                      getNoise(out,1) on the scripted string u
+//   gdec  id kind u_0 … u_{wp-1} => out                      getNoise(out,1) on the scripted string u; out = the value of the out_class
+//                                                            object itself (unsigned types print 2^ob+v for a negative sample v)
+//   gpoly id w n nm amp p_0 … p_{nm-1} bufLen kind <nreq*bufLen words> => nreq data_0 … data_{n*nm-1}
+//         poly<T,n,nm>::set(gaussian<in_class,T,depth>(sampler id, amp)) on a scripted stream (T = uintw_t = the sampler's out_class)
 //   gstep id j => u_0 … u_{wp-1}                             smallest string with output > v0+j, found by bisection on the implementation
 //   gn    id rlen bufLen kind <nreq*bufLen words> => nreq lenOK wrOK out_0 … out_{rlen-1}
 //   gtv   W lam m sn sd cn cd ctor => ratio_ppm wp nb hypOK bitprec   TV(sampler, D_{Z,sigma,c}) / (2^-lam/m), in 1e-6 units (rounded up)
@@ -31,7 +39,15 @@
 #include <mutex>
 #include <condition_variable>
 #include <memory>
+#ifndef GAUSS_OSET
+#define GAUSS_OSET 0
+#endif
+#if GAUSS_OSET != 0
+#include "nfl.hpp"
+#endif
 #include "FastGaussianNoise.hpp"
+#include <type_traits>
+#include <limits>
 
 using namespace vh;
 
@@ -107,7 +123,15 @@ static char g_params[8192];
 #define PARAMS(...) do { snprintf(g_params, sizeof g_params, __VA_ARGS__); fprintf(stderr, "PARAMS %s\n", g_params); fflush(stderr); } while (0)
 
 static int g_next_id = 1;
-static const int32_t SENTINEL = INT32_MIN + 7;
+// out_class: width, signedness, the integer an out_class object denotes when read as the signed type of its width, a value no sample takes
+template <class O> struct OT {
+  typedef typename std::make_signed<O>::type S;
+  static const int bits = 8 * sizeof(O);
+  static const int sg = std::is_signed<O>::value ? 1 : 0;
+  static long long sx(O v) { return (long long)(S)v; }
+  static O sentinel() { return (O)(S)(std::numeric_limits<S>::min() + 7); }
+  static void print(O v) { if (sg) printf(" %lld", (long long)v); else printf(" %llu", (unsigned long long)v); }
+};
 
 // sigma = fl(sn/sd), centre = fl(cn/cd); ctor 0: double centre, 1: mpfr centre = that double, 2: mpfr centre = cn/cd at 256 bits
 struct P {
@@ -130,8 +154,9 @@ static void centre_mpfr(mpfr_t c, const P& p) {      // c already initialised; e
   else { mpfr_set_prec(c, 256); mpfr_set_d(c, p.c(), MPFR_RNDN); }
 }
 
-template <class T, unsigned D> struct Obj {
-  typedef nfl::FastGaussianNoise<T, int32_t, D> FG;
+template <class T, class O, unsigned D> struct Obj {
+  typedef nfl::FastGaussianNoise<T, O, D> FG;
+  typedef OT<O> ot;
   FG* g = nullptr;
   P p;
   int id = 0;
@@ -140,7 +165,7 @@ template <class T, unsigned D> struct Obj {
 
   explicit Obj(const P& p_, bool index_barriers = true) : p(p_) {
     W = 1u << (8 * sizeof(T));
-    PARAMS("construct W=%u depth=%u " PFMT, W, D, PARG(p));
+    PARAMS("construct W=%u depth=%u out_class=%c%d " PFMT, W, D, ot::sg ? 'i' : 'u', ot::bits, PARG(p));
     if (p.ctor == 0) { acct::Op op; g = new FG(p.sigma(), p.lam, p.m, p.c()); }
     else {
       mpfr_t c; mpfr_init2(c, 256); centre_mpfr(c, p);
@@ -168,17 +193,17 @@ template <class T, unsigned D> struct Obj {
   int memcmp_words(const T* a, const T* b) { for (unsigned k = 0; k < wp; k++) { if (a[k] < b[k]) return -1; if (a[k] > b[k]) return 1; } return 0; }
 
   // ---- table dump ----
-  void items(const nfl::output<T, int32_t>* t, std::vector<long long>& o) {
+  template <class CellT> void items(const CellT* t, std::vector<long long>& o) {
     size_t nitems = 0, at = o.size();
     o.push_back(0);
     for (unsigned i = 0; i < W;) {
       if (!t[i].flag && t[i].l_b_ptr.empty()) {
         unsigned j = i;
         while (j < W && !t[j].flag && t[j].l_b_ptr.empty() && t[j].val == t[i].val) j++;
-        o.push_back(0); o.push_back(j - i); o.push_back(t[i].val);
+        o.push_back(0); o.push_back(j - i); o.push_back(ot::sx((O)t[i].val));
         i = j;
       } else {
-        o.push_back(t[i].flag ? 1 : 2); o.push_back(t[i].val); o.push_back((long long)t[i].l_b_ptr.size());
+        o.push_back(t[i].flag ? 1 : 2); o.push_back(ot::sx((O)t[i].val)); o.push_back((long long)t[i].l_b_ptr.size());
         for (T* ptr : t[i].l_b_ptr) { auto it = bidx.find(ptr); o.push_back(it == bidx.end() ? -1 : it->second); }
         i++;
       }
@@ -188,7 +213,7 @@ template <class T, unsigned D> struct Obj {
   }
   void emit_tab() {
     id = g_next_id++;
-    printf("gtab %d %u %u %u %u %d", id, W, D, wp, nb, g->rounded_center);
+    printf("gtab %d %u %u %u %u %d %d %d", id, W, D, wp, nb, g->rounded_center, ot::bits, ot::sg);
     for (unsigned i = 0; i < nb; i++) for (unsigned j = 0; j < wp; j++) printf(" %u", (unsigned)g->barriers[i][j]);
     std::vector<long long> o;
     items(g->lu_table, o);
@@ -202,23 +227,23 @@ template <class T, unsigned D> struct Obj {
   }
 
   // ---- one output on a scripted string ----
-  int32_t eval1(const std::vector<T>& u) {
+  O eval1(const std::vector<T>& u) {
     g_reqs.clear();
     g_fill = [&](size_t req, uint8_t* dst, size_t n) {
       if (req == 0) memcpy(dst, u.data(), std::min(n, u.size() * sizeof(T)));
     };
-    int32_t* out = new int32_t[1];
-    out[0] = SENTINEL;
+    O* out = new O[1];
+    out[0] = ot::sentinel();
     { acct::Op op; g->getNoise(out, 1); }
-    int32_t r = out[0];
+    O r = out[0];
     delete[] out;
     return r;
   }
   void emit_dec(int kind, const std::vector<T>& u) {
-    int32_t r = eval1(u);
+    O r = eval1(u);
     printf("gdec %d %d", id, kind);
     for (T w : u) printf(" %u", (unsigned)w);
-    printf(" => %d\n", r);
+    printf(" =>"); ot::print(r); printf("\n");
   }
   std::vector<T> words_of(const mpz_t z) {
     std::vector<T> u(wp, 0);
@@ -237,13 +262,13 @@ template <class T, unsigned D> struct Obj {
     mpz_inits(lo, hi, mid, nullptr);
     mpz_set_ui(hi, 1); mpz_mul_2exp(hi, hi, wp * 8 * sizeof(T)); mpz_sub_ui(hi, hi, 1);
     printf("gstep %d %u =>", id, j);
-    if (eval1(words_of(hi)) < target) { printf(" -1\n"); mpz_clears(lo, hi, mid, nullptr); return; }
+    if (ot::sx(eval1(words_of(hi))) < target) { printf(" -1\n"); mpz_clears(lo, hi, mid, nullptr); return; }
     std::vector<std::vector<T>> probes;
     while (mpz_cmp(lo, hi) < 0) {
       mpz_add(mid, lo, hi); mpz_fdiv_q_2exp(mid, mid, 1);
       auto u = words_of(mid);
       if (emit) probes.push_back(u);
-      if (eval1(u) >= target) mpz_set(hi, mid); else { mpz_add_ui(lo, mid, 1); }
+      if (ot::sx(eval1(u)) >= target) mpz_set(hi, mid); else { mpz_add_ui(lo, mid, 1); }
     }
     for (T w : words_of(lo)) printf(" %u", (unsigned)w);
     printf("\n");
@@ -254,12 +279,14 @@ template <class T, unsigned D> struct Obj {
   // ---- a whole getNoise call on a scripted stream ----
   // kinds: 0 random, 1 all-zero, 2 all-ones, 3 copies of barriers with the last word perturbed, 4 exact barrier copies,
   //        5 random with first words drawn from flagged cells, 6 barrier on a long prefix then random
-  void run_gn(uint64_t rlen, int kind, Rng& rng) {
-    PARAMS("getNoise id=%d W=%u depth=%u " PFMT " rlen=%llu stream-kind=%d seed=%llu",
-           id, W, D, PARG(p), (unsigned long long)rlen, kind, (unsigned long long)env_u64("VERIF_SEED", 1));
+  //        7 copies of barriers whose output is NEGATIVE, last word -1 / 0 / +1 (flagged cell + negative value by construction;
+  //          falls back to kind 3 when the support has no negative value)
+  void script(int kind, uint64_t s0) {
     g_reqs.clear();
-    uint64_t s0 = rng.next();
-    g_fill = [&, s0, kind](size_t req, uint8_t* dst, size_t n) {
+    long v0 = (long)g->rounded_center - ((long)nb - 1) / 2;           // string == barrier j  =>  output v0 + j + 1
+    unsigned nneg = v0 + 1 < 0 ? (unsigned)std::min<long>((long)nb, -v0 - 1) : 0;
+    if (kind == 7 && nneg == 0) kind = 3;
+    g_fill = [this, s0, kind, nneg](size_t req, uint8_t* dst, size_t n) {
       Rng r(s0 + 77 * req);
       size_t nw = n / sizeof(T);
       std::vector<T> w(nw + 1, 0);
@@ -267,13 +294,13 @@ template <class T, unsigned D> struct Obj {
         case 0: for (auto& x : w) x = (T)r.next(); break;
         case 1: break;
         case 2: for (auto& x : w) x = (T)~(T)0; break;
-        case 3: case 4: case 6:
+        case 3: case 4: case 6: case 7:
           for (size_t i = 0; i < nw;) {
-            unsigned j = (unsigned)r.below(nb);
+            unsigned j = (unsigned)r.below(kind == 7 ? nneg : nb);
             size_t keep = kind == 6 ? 1 + r.below(wp) : wp;
             unsigned k = 0;
             for (; k < wp && i < nw; k++, i++) w[i] = k < keep ? g->barriers[j][k] : (T)r.next();
-            if (kind == 3 && k == wp) w[i - 1] = (T)(w[i - 1] + (int)r.below(3) - 1);   // last word -1 / 0 / +1
+            if ((kind == 3 || kind == 7) && k == wp) w[i - 1] = (T)(w[i - 1] + (int)r.below(3) - 1);   // last word -1 / 0 / +1
           }
           break;
         case 5:
@@ -282,25 +309,58 @@ template <class T, unsigned D> struct Obj {
       }
       if (n) memcpy(dst, w.data(), n);
     };
-    int32_t* out = new int32_t[rlen];   // exact size: a write past rlen outputs is a heap overflow for ASan
-    for (uint64_t i = 0; i < rlen; i++) out[i] = SENTINEL;
+  }
+  void print_requests(size_t blen) {
+    for (auto& v : g_reqs) for (size_t i = 0; i < blen; i++) {
+      T x = 0; if ((i + 1) * sizeof(T) <= v.size()) memcpy(&x, v.data() + i * sizeof(T), sizeof(T));
+      printf(" %u", (unsigned)x);
+    }
+  }
+  void run_gn(uint64_t rlen, int kind, Rng& rng) {
+    PARAMS("getNoise id=%d W=%u depth=%u out_class=%c%d " PFMT " rlen=%llu stream-kind=%d seed=%llu",
+           id, W, D, ot::sg ? 'i' : 'u', ot::bits, PARG(p), (unsigned long long)rlen, kind, (unsigned long long)env_u64("VERIF_SEED", 1));
+    script(kind, rng.next());
+    O* out = new O[rlen];   // exact size: a write past rlen outputs is a heap overflow for ASan
+    for (uint64_t i = 0; i < rlen; i++) out[i] = ot::sentinel();
     { acct::Op op; g->getNoise(out, rlen); }
     size_t nreq = g_reqs.size();
     size_t blen = nreq ? g_reqs[0].size() / sizeof(T) : 0;
     int lenok = nreq >= 1;
     for (auto& v : g_reqs) if (v.size() != blen * sizeof(T)) lenok = 0;
     int wrok = 1;
-    for (uint64_t i = 0; i < rlen; i++) if (out[i] == SENTINEL) wrok = 0;
+    for (uint64_t i = 0; i < rlen; i++) if (out[i] == ot::sentinel()) wrok = 0;
     printf("gn %d %llu %zu %d", id, (unsigned long long)rlen, blen, kind);
-    for (auto& v : g_reqs) for (size_t i = 0; i < blen; i++) {
-      T x = 0; if ((i + 1) * sizeof(T) <= v.size()) memcpy(&x, v.data() + i * sizeof(T), sizeof(T));
-      printf(" %u", (unsigned)x);
-    }
+    print_requests(blen);
     printf(" => %zu %d %d", nreq, lenok, wrok);
-    for (uint64_t i = 0; i < rlen; i++) printf(" %d", out[i]);
+    for (uint64_t i = 0; i < rlen; i++) ot::print(out[i]);
     printf("\n");
     delete[] out;
   }
+
+#if GAUSS_OSET != 0
+  // ---- the library's own consumer: poly<O,N,NM>::set(gaussian<T,O,D>(sampler, amp)) reads the samples back as signed_value_type ----
+  template <size_t N, size_t NM> void run_poly(uint64_t amp, int kind, Rng& rng) {
+    typedef nfl::poly<O, N, NM> Pl;
+    PARAMS("poly<uint%d_t,%zu,%zu>::set(gaussian) id=%d W=%u depth=%u " PFMT " amplifier=%llu stream-kind=%d seed=%llu",
+           ot::bits, N, NM, id, W, D, PARG(p), (unsigned long long)amp, kind, (unsigned long long)env_u64("VERIF_SEED", 1));
+    script(kind, rng.next());
+    Pl* q = new Pl;
+    for (size_t i = 0; i < N * NM; i++) q->_data[i] = (O)0x5A5A5A5A5A5A5A5AULL;
+    { acct::Op op; q->set(nfl::gaussian<T, O, D>(g, amp)); }
+    size_t nreq = g_reqs.size();
+    size_t blen = nreq ? g_reqs[0].size() / sizeof(T) : 0;
+    for (auto& v : g_reqs) if (v.size() != blen * sizeof(T)) blen = 0;     // unequal requests: the driver rejects bufLen 0
+    printf("gpoly %d %d %zu %zu %llu", id, ot::bits, N, NM, (unsigned long long)amp);
+    for (size_t cm = 0; cm < NM; cm++) printf(" %llu", (unsigned long long)Pl::get_modulus(cm));
+    printf(" %zu %d", blen, kind);
+    print_requests(blen);
+    printf(" => %zu", nreq);
+    for (size_t i = 0; i < N * NM; i++) printf(" %llu", (unsigned long long)q->_data[i]);
+    printf("\n");
+    delete q;
+    g_fill = nullptr;
+  }
+#endif
 
   // ---- getNoise inside a lifecycle (outputs are not reported: C11's gn lines do that; here the accesses are what matters) ----
   void life_sample(uint64_t rlen, int kind, uint64_t seed) {
@@ -316,7 +376,7 @@ template <class T, unsigned D> struct Obj {
       }
       if (n) memcpy(dst, w.data(), n);
     };
-    int32_t* out = new int32_t[rlen];
+    O* out = new O[rlen];
     { acct::Op op; g->getNoise(out, rlen); }
     delete[] out;
     g_fill = nullptr;
@@ -376,7 +436,7 @@ static Ideal* ideal_for(const P& p) {
 }
 
 // TV between the sampler's exact output law (barrier differences over W^wp) and D_{Z,sigma,c}; returns ceil(1e6 * TV_upper / (2^-lam/m))
-template <class T, unsigned D> static long long tv_ratio_ppm(Obj<T, D>& o) {
+template <class T, class O, unsigned D> static long long tv_ratio_ppm(Obj<T, O, D>& o) {
   Ideal* I = ideal_for(o.p);
   unsigned wp = o.wp, nb = o.nb;
   long v0 = (long)o.g->rounded_center - ((long)nb - 1) / 2;
@@ -415,8 +475,8 @@ template <class T, unsigned D> static long long tv_ratio_ppm(Obj<T, D>& o) {
 }
 
 // ------------------------------------------------------------------------------------------------ streams
-template <class T, unsigned D> static void c10_config(const P& p, Rng& rng, unsigned max_bisect, bool emit_probes, unsigned cell_budget) {
-  Obj<T, D> o(p);
+template <class T, unsigned D, class O = int32_t> static void c10_config(const P& p, Rng& rng, unsigned max_bisect, bool emit_probes, unsigned cell_budget) {
+  Obj<T, O, D> o(p);
   o.emit_tab();
   o.emit_par();
   unsigned wp = o.wp, nb = o.nb, W = o.W;
@@ -469,29 +529,55 @@ template <class T, unsigned D> static void c10_config(const P& p, Rng& rng, unsi
       }
     }
   }
+  // (6) FLAGGED final-level cells whose tabulated value is NEGATIVE, by construction (the walk over the cell's barrier list starts from a
+  //     negative out_class value): both ends of the cell, and the first / last barrier of its list with its predecessor and successor
+  {
+    struct FC { unsigned c1, c2; const std::list<T*>* l; };
+    std::vector<FC> fcs;
+    for (unsigned c = 0; c < W; c++) {
+      if (!o.g->lu_table[c].flag) continue;
+      if (D == 1) { if (Obj<T, O, D>::ot::sx((O)o.g->lu_table[c].val) < 0) fcs.push_back({c, 0, &o.g->lu_table[c].l_b_ptr}); }
+      else if (o.g->lu_table2[c]) for (unsigned c2 = 0; c2 < W; c2++)
+        if (o.g->lu_table2[c][c2].flag && Obj<T, O, D>::ot::sx((O)o.g->lu_table2[c][c2].val) < 0) fcs.push_back({c, c2, &o.g->lu_table2[c][c2].l_b_ptr});
+    }
+    size_t budget = thorough() ? 400 : 40, stride = std::max<size_t>(1, (fcs.size() + budget - 1) / budget), off = fcs.empty() ? 0 : rng.below(stride);
+    for (size_t k = off; k < fcs.size(); k += stride) {
+      std::vector<T> u(wp, 0); u[0] = (T)fcs[k].c1; if (D == 2) u[1] = (T)fcs[k].c2;
+      o.emit_dec(5, u);
+      std::fill(u.begin() + D, u.end(), ones); o.emit_dec(5, u);
+      const T* ends[2] = {fcs[k].l->front(), fcs[k].l->back()};
+      for (int e = 0; e < (fcs[k].l->size() > 1 ? 2 : 1); e++) {
+        mpz_t z; mpz_init(z); mpz_import(z, wp, 1, sizeof(T), 0, 0, ends[e]);
+        o.emit_dec(5, o.words_of(z));
+        if (mpz_sgn(z) > 0) { mpz_sub_ui(z, z, 1); o.emit_dec(5, o.words_of(z)); mpz_add_ui(z, z, 1); }
+        mpz_add_ui(z, z, 1); if (mpz_sizeinbase(z, 2) <= wp * 8 * sizeof(T)) o.emit_dec(5, o.words_of(z));
+        mpz_clear(z);
+      }
+    }
+  }
   // (5) random strings, all-zero, all-ones
   for (int i = 0; i < 200; i++) { std::vector<T> u(wp); for (auto& x : u) x = (T)rng.next(); o.emit_dec(4, u); }
   o.emit_dec(4, std::vector<T>(wp, 0));
   o.emit_dec(4, std::vector<T>(wp, ones));
 }
 
-template <class T, unsigned D> static void c11_config(const P& p, Rng& rng, const std::vector<uint64_t>& rlens, int nkinds_per_len) {
-  Obj<T, D> o(p);
+template <class T, unsigned D, class O = int32_t> static void c11_config(const P& p, Rng& rng, const std::vector<uint64_t>& rlens, int nkinds_per_len, int nkinds = 7) {
+  Obj<T, O, D> o(p);
   o.emit_tab();
   int k = 0;
   for (uint64_t rlen : rlens)
-    for (int i = 0; i < nkinds_per_len; i++) o.run_gn(rlen, (k++) % 7, rng);
+    for (int i = 0; i < nkinds_per_len; i++) o.run_gn(rlen, (k++) % nkinds, rng);
 }
 
 template <class T, unsigned D> static void tv_one(const P& p) {
-  Obj<T, D> o(p);
+  Obj<T, int32_t, D> o(p);
   long long r = tv_ratio_ppm(o);
   printf("gtv %u %u %u %ld %ld %ld %ld %d => %lld %u %u %d %u\n", o.W, p.lam, p.m, p.sn, p.sd, p.cn, p.cd, p.ctor, r, o.wp, o.nb, o.hyp_ok(), o.g->_bit_precision);
   o.emit_par();
 }
 
 template <class T, unsigned D> static void life_one(const P& p, Rng& rng) {
-  Obj<T, D>* o = new Obj<T, D>(p);
+  Obj<T, int32_t, D>* o = new Obj<T, int32_t, D>(p);
   static const uint64_t lens[] = {0, 1, 2, 3, 7, 33};
   for (int i = 0; i < 2; i++) {
     uint64_t rlen = lens[rng.below(6)];
@@ -563,7 +649,7 @@ struct Life {
   virtual void sample(uint64_t rlen, int kind, uint64_t seed) = 0;
 };
 template <class T, unsigned D> struct LifeT : Life {
-  Obj<T, D> o;
+  Obj<T, int32_t, D> o;
   explicit LifeT(const P& p) : o(p, false) { W = o.W; depth = D; nb = o.nb; wp = o.wp; hyp = o.hyp_ok(); }
   void sample(uint64_t rlen, int kind, uint64_t seed) override { o.life_sample(rlen, kind, seed); }
 };
@@ -712,12 +798,80 @@ static void lifecycles_random(Rng& rng, int count, bool allow_big) {
   }
 }
 
+// ------------------------------------------------------------------------------------------------ the out_class dimension
+// The library instantiates the sampler with the polynomial's coefficient type (gaussian<in_class, T, depth> with T = uint16_t / uint32_t /
+// uint64_t: the samples are written as T and read back as signed_value_type), users pick int64_t / int16_t / …: the same correspondence
+// for every out_class the constructor accepts silently (it warns on stdout when nb >= 2^(bits-1): never the case for these parameters;
+// the parameters keep every sample inside the signed range of the type, which the driver re-checks on the gtab line).
+#if GAUSS_OSET != 0
+template <class O> static void fit_centre(P& p) {      // 16-bit outputs: keep centre +- tail inside the type
+  if (OT<O>::bits >= 32) return;
+  p.cn = p.cn % (8000 * p.cd);
+  fix_ctor(p);
+}
+template <class T, unsigned D, class O, size_t N, size_t NM> static void poly_config(const P& p, Rng& rng, bool th) {
+  Obj<T, O, D> o(p);
+  o.emit_tab();
+  static const uint64_t amps[] = {1, 3, 2};
+  for (int rep = 0; rep < (th ? 6 : 1); rep++)
+    for (int kind = 0; kind < 8; kind++)
+      for (int a = 0; a < (kind == 7 || kind == 3 || th ? 3 : 1); a++) o.template run_poly<N, NM>(amps[a], kind, rng);
+}
+template <class O> static void c10_out_sweep(Rng& rng, bool th) {
+  unsigned mb = th ? 64 : 10;
+  c10_config<uint8_t, 1, O>(P{319, 100, 128, 1, 0, 1, 0}, rng, mb, false, 256);
+  c10_config<uint8_t, 2, O>(P{20, 1, 128, 1u << 10, 0, 1, 0}, rng, mb, false, th ? 256 : 128);      // the parameters of the LWE example
+  c10_config<uint8_t, 2, O>(P{3, 10, 32, 1, -1, 2, 1}, rng, mb, false, 256);
+  c10_config<uint16_t, 1, O>(P{10, 1, 64, 1000, -1, 4, 1}, rng, th ? 32 : 6, false, th ? 4000 : 400);
+  c10_config<uint16_t, 2, O>(P{1, 1, 64, 3, -2, 7, 1}, rng, th ? 32 : 6, false, th ? 2000 : 300);
+  c10_config<uint8_t, 2, O>(P{451, 100, 100, 12345, -12345678, 1000, 0}, rng, mb, false, th ? 256 : 64);   // every sample negative
+  for (int i = 0; i < (th ? 8 : 1); i++) {
+    P p = rand_params(rng, 20.0);
+    fit_centre<O>(p);
+    switch (rng.below(3)) {
+      case 0: c10_config<uint8_t, 1, O>(p, rng, 8, false, 256); break;
+      case 1: c10_config<uint8_t, 2, O>(p, rng, 8, false, 64); break;
+      default: c10_config<uint16_t, 1, O>(p, rng, 6, false, 400);
+    }
+  }
+}
+template <class O, size_t NM> static void poly_sweep(Rng& rng, bool th) {
+  poly_config<uint8_t, 2, O, 16, NM>(P{20, 1, 128, 1u << 10, 0, 1, 0}, rng, th);
+  poly_config<uint8_t, 1, O, 8, NM>(P{319, 100, 128, 1, 0, 1, 0}, rng, th);
+  poly_config<uint16_t, 1, O, 16, NM>(P{10, 1, 64, 1000, -1, 4, 1}, rng, th);
+  poly_config<uint16_t, 2, O, 4, NM>(P{1, 1, 64, 3, -2, 7, 1}, rng, th);
+  poly_config<uint8_t, 2, O, 8, NM>(P{451, 100, 100, 12345, -1234567, 1000, 0}, rng, th);                  // every sample negative
+}
+template <class O> static void c11_out_sweep(Rng& rng, bool th) {
+  std::vector<uint64_t> lens = {0, 1, 2, 3, 5, 8, 16, 17, 33, 64, 257};
+  if (th) { lens.clear(); for (uint64_t r = 0; r <= 64; r++) lens.push_back(r); lens.push_back(257); lens.push_back(1000); lens.push_back(4096); }
+  c11_config<uint8_t, 2, O>(P{20, 1, 128, 1u << 10, 0, 1, 0}, rng, lens, th ? 8 : 4, 8);
+  c11_config<uint8_t, 1, O>(P{319, 100, 128, 1, 0, 1, 0}, rng, lens, th ? 8 : 4, 8);
+  c11_config<uint16_t, 1, O>(P{10, 1, 64, 1000, -1, 4, 1}, rng, lens, th ? 8 : 2, 8);
+  c11_config<uint16_t, 2, O>(P{1, 1, 64, 3, -2, 7, 1}, rng, lens, th ? 8 : 2, 8);
+}
+#endif
+
 int main(int argc, char** argv) {
   setvbuf(stdout, nullptr, _IOLBF, 0);
   const char* mode = argc > 1 ? argv[1] : "c10";
   uint64_t seed = env_u64("VERIF_SEED", 1);
   Rng rng(seed * 1315423911ULL + (mode[1] == '1' && mode[2] == '1' ? 11 : 10));
   bool th = thorough();
+
+#if GAUSS_OSET == 1
+  if (!strcmp(mode, "c10")) { c10_out_sweep<int64_t>(rng, th); c10_out_sweep<uint64_t>(rng, th); poly_sweep<uint64_t, 3>(rng, th); }
+  if (!strcmp(mode, "c11")) { c11_out_sweep<int64_t>(rng, th); c11_out_sweep<uint64_t>(rng, th); }
+  return 0;
+#elif GAUSS_OSET == 2
+  if (!strcmp(mode, "c10")) { c10_out_sweep<uint32_t>(rng, th); poly_sweep<uint32_t, 3>(rng, th); }
+  if (!strcmp(mode, "c11")) { c11_out_sweep<uint32_t>(rng, th); }
+  return 0;
+#elif GAUSS_OSET == 3
+  if (!strcmp(mode, "c10")) { c10_out_sweep<int16_t>(rng, th); c10_out_sweep<uint16_t>(rng, th); poly_sweep<uint16_t, 2>(rng, th); }
+  if (!strcmp(mode, "c11")) { c11_out_sweep<int16_t>(rng, th); c11_out_sweep<uint16_t>(rng, th); }
+  return 0;
+#endif
 
   if (!strcmp(mode, "tv")) {
     // (1) the grid of the property, each point with m = 1, 2^10, 2^20 and with two sample budgets that are not powers of two;
